@@ -106,7 +106,7 @@ class SimFS:
         data = self.files[key]
         if "b" in mode:
             return self.raw(data)
-        if encoding is None:
+        if encoding is None or encoding == "locale":   # "locale" is what io.text_encoding(None) hands down
             encoding = self.cell["default_encoding"]
             self.stats["fault:platform-default-encoding-applied"] = \
                 self.stats.get("fault:platform-default-encoding-applied", 0) + 1
